@@ -44,14 +44,10 @@ type c18World struct {
 	stops  []func()
 	cancel context.CancelFunc
 	why    string
-	// oneChain: every request runs through all filters in order
-	oneChain bool
 }
 
-// With oneChain, all filters sit in ONE chain that every request runs through in order (selected by x-tenant: all).
-func newC18World(c *sim.Case, n int, storeMode string, timeouts [][2]int, oneChain ...bool) *c18World {
+func newC18World(c *sim.Case, n int, storeMode string, timeouts [][2]int) *c18World {
 	w := &c18World{}
-	w.oneChain = len(oneChain) > 0 && oneChain[0]
 	// a third of the configurations run as the built service binary (cmd/main.go) behind gRPC
 	binary := sim.ServiceBinary() != "" && sim.Weighted(c, "binary", 2, 1) == 1
 	if binary {
@@ -91,16 +87,9 @@ func newC18World(c *sim.Case, n int, storeMode string, timeouts [][2]int, oneCha
 		if strings.HasPrefix(f.store, "redis-db") {
 			f.cfg.RedisSessionStoreConfig = &oidcv1.RedisConfig{ServerUri: fmt.Sprintf("redis://%s/%d", mr.Addr(), i)}
 		}
-		if w.oneChain {
-			if i == 0 {
-				full.Chains = append(full.Chains, &configv1.FilterChain{Name: "all", Match: &configv1.Match{Header: "x-tenant", Criteria: &configv1.Match_Equality{Equality: "all"}}})
-			}
-			full.Chains[0].Filters = append(full.Chains[0].Filters, &configv1.Filter{Type: &configv1.Filter_Oidc{Oidc: f.cfg}})
-		} else {
-			full.Chains = append(full.Chains, &configv1.FilterChain{Name: f.name,
-				Match:   &configv1.Match{Header: "x-tenant", Criteria: &configv1.Match_Equality{Equality: f.name}},
-				Filters: []*configv1.Filter{{Type: &configv1.Filter_Oidc{Oidc: f.cfg}}}})
-		}
+		full.Chains = append(full.Chains, &configv1.FilterChain{Name: f.name,
+			Match:   &configv1.Match{Header: "x-tenant", Criteria: &configv1.Match_Equality{Equality: f.name}},
+			Filters: []*configv1.Filter{{Type: &configv1.Filter_Oidc{Oidc: f.cfg}}}})
 		w.fs = append(w.fs, f)
 		c.Logf("filter %s: store=%s abs=%v idle=%v", f.name, f.store, f.abs, f.idle)
 	}
@@ -138,9 +127,6 @@ func (w *c18World) close() {
 
 func (w *c18World) check(f *c18Filter, path, cookie string) *sim.Resp {
 	h := map[string]string{"x-tenant": f.name}
-	if w.oneChain {
-		h["x-tenant"] = "all"
-	}
 	if cookie != "" {
 		h["cookie"] = cookie
 	}
